@@ -92,6 +92,8 @@ def run(ck: Checker) -> None:
                        "str() of user-defined property classes is injective (not decided)"]
     ck.guard("R-DIGEST-DEP", lambda: r_digest(ck))
     ck.guard("R-CID-WRITE-ONCE", lambda: r_write_once(ck))
+    from .c10 import r_field_writes
+    ck.guard("R-CID-WRITE-ONCE", lambda: r_field_writes(ck, "R-CID-WRITE-ONCE"))
     ck.guard("R-ISEQUAL-FORM", lambda: r_isequal(ck))
     ck.guard("R-PRESENCE", lambda: T.r_presence(ck))
     # the digest reads get_properties(skip_id, skip_origin, skip_content_id all True) and get_child_nodes_with_field: the place of the
